@@ -8,7 +8,7 @@ import signal
 
 from mc.checks import stream_corpus as SC
 from mc.checks import codec_matrix as CM
-from mc.core.runner import Result, pyasn1_site, exc_text
+from mc.core.runner import guarded, Result, pyasn1_site, exc_text
 from mc.env import streams as ST
 from mc.model import x690 as M
 from mc.model import forms as F
@@ -202,7 +202,7 @@ def shard(tier, i, n, seed):
         idx += 1
         if (idx + seed) % n != i:
             continue
-        run_all(data, 'alphabet', None, specs_a, R, idx)
+        guarded(R, lambda: run_all(data, 'alphabet', None, specs_a, R, idx), {'data': data, 'origin': 'alphabet'}, {'alphabet'}, idx)
     R.extra['alphabet_strings'] += 0
     # (b) mutation neighbourhoods
     for name, form, T, e in seeds(tier):
@@ -211,7 +211,7 @@ def shard(tier, i, n, seed):
             idx += 1
             if (idx + seed) % n != i:
                 continue
-            run_all(m, 'mut:' + kind, (name, form), specs_b + [own], R, idx)
+            guarded(R, lambda: run_all(m, 'mut:' + kind, (name, form), specs_b + [own], R, idx), {'data': m, 'origin': 'mut:' + kind}, {'mut'}, idx)
     return R
 
 
